@@ -137,7 +137,7 @@ class Exec:
             tx = R.RTx([(ref[0], ref[1], ("se",))], [(o[0] - 1, KEYS[n].pub)])
             tx.ins = [(ref[0], ref[1], ("sig", k.sign(R.signing_message(tx))))]
             if self.b.to_sk_tx(tx.touch()) not in self.node.cm.transaction_pool:
-                self.node.cm.add_transaction_to_pool(self.b.to_sk_tx(tx))
+                self.net.call(self.node, self.node.cm.add_transaction_to_pool, self.b.to_sk_tx(tx))
             n += 1
 
     def store_blocks(self):
